@@ -17,6 +17,7 @@ Line protocol of the ownership model.  Labels are written `=text` (so the empty 
     newwith <c> <=label> <fails 0/1> <kids…>   `Workflow(label, *kids)`
     replacecls <p> <=key> <new>        `p.key = NodeClass`: a fresh instance `new` replaces the child `key`
     reload <c>                         `c.save(); c.load()` in place
+    copy <c> <c'>                      `c' = copy.copy(c)` for a composite `c`
     newmacro <m> <=label> <p|-> <u> <starting…>   constructor of a macro with its inner child `u`
     syncnode <c> <=label> <p|->  /  syncchildren <p> <=key> <id> …   re-synchronise from an observed state
     q <op…>                            same op, prints only when it does not return `ok`
@@ -56,6 +57,7 @@ def showOutcome : Outcome → String
   | .parentMostError => "ParentMostError" | .keyError => "KeyError"
   | .duplicationError => "DuplicationError" | .recursionError => "RecursionError"
   | .noMethod => "noMethod" | .unreachable => "unreachable" | .setupError => "SetupError"
+  | .runtimeError => "RuntimeError"
 
 def showStr (s : Str) : String := String.ofList s
 
@@ -130,6 +132,14 @@ def step (s : St) (ws : List String) : St × List String :=
     | some a, some b, some c, some d, some e, some f, some g, some i, some j =>
       ({ s with cfg := ⟨a, b, c, d, e, f, g, i, j, 64⟩ }, [])
     | _, _, _, _, _, _, _, _, _ => (s, ["bad-op"])
+  | ["copy", c, c'] =>
+    match c.toNat?, c'.toNat? with
+    | some c, some c' =>
+      if c ∈ s.alive ∧ c' ∉ s.alive ∧ (s.t.kind c).isComposite then
+        let s' := (copyOps s.t c c').foldl (fun acc op => (applyOp acc op).1) s
+        (s', ["ok | " ++ obs s'])
+      else (s, ["bad-op"])
+    | _, _ => (s, ["bad-op"])
   | ["reload", c] =>
     match c.toNat? with
     | some c =>
